@@ -74,13 +74,12 @@ type HistCase struct {
 	RootList int    `json:"rootlist,omitempty"` // > 0: the initial config is NewFrom([]string of that length); <0 relative to the cap as in Op.N
 	Init     []KV   `json:"init,omitempty"`     // otherwise NewFrom(map of these keys)
 	Ops      []Op   `json:"ops"`
+	// the option list as a sequence (optseq_test.go): overridden earlier occurrences of the options of every call
+	Shadow []OptItem `json:"shadow,omitempty"`
+	Order  int       `json:"order,omitempty"`
 }
 
 func (c HistCase) opts(over *int64) ([]ucfg.Option, int64) {
-	var o []ucfg.Option
-	if c.Sep != "" {
-		o = append(o, ucfg.PathSep(c.Sep))
-	}
 	max := int64(defaultMaxIdx)
 	mi := c.MaxIdx
 	if over != nil {
@@ -88,15 +87,14 @@ func (c HistCase) opts(over *int64) ([]ucfg.Option, int64) {
 	}
 	if mi != nil {
 		max = *mi
-		o = append(o, ucfg.MaxIdx(max))
 	}
-	switch c.NumKeys {
-	case "off":
-		o = append(o, ucfg.EnableNumKeys(false))
-	case "on":
-		o = append(o, ucfg.EnableNumKeys(true))
+	var sh []OptItem
+	for _, s := range c.Shadow {
+		if s.K != "maxidx" || mi == nil || s.N != *mi {
+			sh = append(sh, s)
+		}
 	}
-	return o, max
+	return toOptions(assemble(baseItems(c.Sep, mi, c.NumKeys, false), sh, c.Order)), max
 }
 
 func relN(n int, max int64) int {
@@ -806,6 +804,7 @@ func runHist(c HistCase, r *runlog.R) error {
 	}
 	r.Class("numkeys: " + c.NumKeys)
 	r.ClassIf(c.Sep == "", "sep: none")
+	seqClasses(r, baseItems(c.Sep, c.MaxIdx, c.NumKeys, false), c.Shadow, c.Order)
 	return nil
 }
 
@@ -1042,12 +1041,13 @@ func genHist(t *rapid.T) HistCase {
 		}
 		c.Ops = append(c.Ops, op)
 	}
+	c.Shadow, c.Order = genShadow(t, c.Sep, c.MaxIdx, c.NumKeys)
 	return c
 }
 
 var subHist = runlog.Register(&runlog.Sub[HistCase]{
 	Name: "histories",
-	Rule: "an initial config (empty; NewFrom(map) of keys l.0 .. l.k-1 written in any integer form with k in MaxIdx-1..MaxIdx+1; a Go slice of MaxIdx-1..MaxIdx+2 strings under l, optionally a second one under m.l; a top-level slice of that size) followed by 2-10 calls (1-4 for the large caps) through the root (70%) or through a fresh Child handle (l mostly; (l, len-1), l.<len-1>, m; the root if there is no container at that address): 70% setters (SetString 4/11, SetBool, SetInt, SetUint, SetFloat, SetChild of {k: v}, SetChild of a list made from a slice with MaxIdx..MaxIdx+2 or 0..2 entries), 10% Remove, 20% Merge of a map with 1-3 keys (default policy 4/7, ReplaceValues, AppendValues, PrependValues). Addresses: name shapes l, l.<n>, l.<n>.k, l.<n>.<n>, <n>, <n>.k, m.l.<n>, l.k (through a list handle: the empty name, <n>, <n>.k, <n>.<n>, k), with an explicit idx in 30% (80% for a bare list name, always for the empty name); Remove addresses prefer existing entries (len-1, 0..2). Every number <n>/idx is fixed when the call is made: the CURRENT length of the list addressed so far + {-1,0,0,0,0,1,1,2} (50%), MaxIdx + {-1,0,0,1,1,2} (20%) or 0..3 (30%); a number inside a name is written as decimal (6/15) or 0x / 0X / leading-0 octal / 0o / 0b / +n / 0x00n / 0x_n / -n. Options for all calls: MaxIdx 0..4 (85%), 7, 1024 given or the default not given; PathSep '.' (7/8) or none; EnableNumKeys not given/false/true; in 1/8 of the histories a third of the calls use another MaxIdx (0..5) than the rest. Oracle after EVERY call: (1) growth invariant on the whole stored tree (verif hook), list by list at the same position: no list has become longer than MaxIdx+1 entries of the call (a list that was longer before - from a slice or a larger MaxIdx - may keep its length; SetChild may attach the list it was given; under Append/PrependValues only: the longest list grows by at most the MaxIdx+1 entries of one source list); no panic; (2) the classification model: the address is split at the separator, every segment classified (index iff literal in [0,MaxIdx], numeric keys only for single-segment names), the explicit idx appended as an index; if no index exceeds MaxIdx and the path does not run through a primitive, the call must succeed and the stored tree must equal the model's (value stored, missing nodes created, lists padded with nil), Has (and String for strings) must find the value at the same address; Remove of an existing entry must return true and cut it out; Merge with the default policy must equal merging the classified source tree (names, lists by position); an explicit idx above MaxIdx may be rejected or replace an entry of a list that is already that long. Where C20 does not determine the outcome (path through a primitive, Remove of nothing, other merge policies) the model continues from the stored tree. Classes: fill level of the addressed list relative to MaxIdx+1, idx relative to its length. Non-trivial: a call addresses index >= len of a list that holds >= MaxIdx+1 entries, or puts a literal >= MaxIdx as a key into such a list. Distinct: hash of the case.",
+	Rule: "an initial config (empty; NewFrom(map) of keys l.0 .. l.k-1 written in any integer form with k in MaxIdx-1..MaxIdx+1; a Go slice of MaxIdx-1..MaxIdx+2 strings under l, optionally a second one under m.l; a top-level slice of that size) followed by 2-10 calls (1-4 for the large caps) through the root (70%) or through a fresh Child handle (l mostly; (l, len-1), l.<len-1>, m; the root if there is no container at that address): 70% setters (SetString 4/11, SetBool, SetInt, SetUint, SetFloat, SetChild of {k: v}, SetChild of a list made from a slice with MaxIdx..MaxIdx+2 or 0..2 entries), 10% Remove, 20% Merge of a map with 1-3 keys (default policy 4/7, ReplaceValues, AppendValues, PrependValues). Addresses: name shapes l, l.<n>, l.<n>.k, l.<n>.<n>, <n>, <n>.k, m.l.<n>, l.k (through a list handle: the empty name, <n>, <n>.k, <n>.<n>, k), with an explicit idx in 30% (80% for a bare list name, always for the empty name); Remove addresses prefer existing entries (len-1, 0..2). Every number <n>/idx is fixed when the call is made: the CURRENT length of the list addressed so far + {-1,0,0,0,0,1,1,2} (50%), MaxIdx + {-1,0,0,1,1,2} (20%) or 0..3 (30%); a number inside a name is written as decimal (6/15) or 0x / 0X / leading-0 octal / 0o / 0b / +n / 0x00n / 0x_n / -n. Options for all calls: MaxIdx 0..4 (85%), 7, 1024 given or the default not given; PathSep '.' (7/8) or none; EnableNumKeys not given/false/true; in 1/8 of the histories a third of the calls use another MaxIdx (0..5) than the rest; in 3/5 of the histories the option list of every call is a sequence in which the explicit options are preceded by overridden occurrences of themselves (EnableNumKeys with the opposite value, another MaxIdx incl. the boundary values up to MaxInt64, another PathSep; all in front or each directly before its override; canonical or reverse order): the last occurrence counts. Oracle after EVERY call: (1) growth invariant on the whole stored tree (verif hook), list by list at the same position: no list has become longer than MaxIdx+1 entries of the call (a list that was longer before - from a slice or a larger MaxIdx - may keep its length; SetChild may attach the list it was given; under Append/PrependValues only: the longest list grows by at most the MaxIdx+1 entries of one source list); no panic; (2) the classification model: the address is split at the separator, every segment classified (index iff literal in [0,MaxIdx], numeric keys only for single-segment names), the explicit idx appended as an index; if no index exceeds MaxIdx and the path does not run through a primitive, the call must succeed and the stored tree must equal the model's (value stored, missing nodes created, lists padded with nil), Has (and String for strings) must find the value at the same address; Remove of an existing entry must return true and cut it out; Merge with the default policy must equal merging the classified source tree (names, lists by position); an explicit idx above MaxIdx may be rejected or replace an entry of a list that is already that long. Where C20 does not determine the outcome (path through a primitive, Remove of nothing, other merge policies) the model continues from the stored tree. Classes: fill level of the addressed list relative to MaxIdx+1, idx relative to its length. Non-trivial: a call addresses index >= len of a list that holds >= MaxIdx+1 entries, or puts a literal >= MaxIdx as a key into such a list. Distinct: hash of the case.",
 	Gen:  genHist,
 	Run:  runHist,
 })
